@@ -62,6 +62,178 @@ package admin
 //@   trusted
 //@   modifies messagesPublishRequest.*, managementEndpointUpsertPayload.*, dlqManageRequest.*, messagesManageFilterRequest.*
 
+// ---- C14: the by-filter request body becomes the store request (shared by the six cancel/requeue/resume handlers) ----
+// lastFilter* record what the parser produced; each handler's store call is held to them.
+//@ spec
+//@ ghost var lastFilterLimit int
+//@ ghost var lastFilterState queue.State
+//@ ghost var lastFilterTarget string
+//@ ghost var lastFilterPreview bool
+//@ ghost var lastFilterBefore time.Time
+//@ ghost var lastFilterOK bool
+//@ ghost var lastResolvedRoute string
+//@ ghost var lastResolvedOK bool
+//@ ghost var lastParsedIDs []string
+//@ ghost var lastParsedIDsOK bool
+
+//@ func parseQueueState
+//@   ensures [C14:state_names] result1 ==> (raw == "" && result0 == "") || (result0 == lower(raw) && (result0 == queue.StateQueued || result0 == queue.StateLeased || result0 == queue.StateDelivered || result0 == queue.StateDead || result0 == queue.StateCanceled))
+
+//@ func parseMessageManageFilter
+//@   requires r != nil
+//@   modifies messagesManageFilterRequest.*, lastFilterLimit, lastFilterState, lastFilterTarget, lastFilterPreview, lastFilterBefore, lastFilterOK
+//@   sets lastFilterLimit := result0.Limit
+//@   sets lastFilterState := result0.State
+//@   sets lastFilterTarget := result0.Target
+//@   sets lastFilterPreview := result0.PreviewOnly
+//@   sets lastFilterBefore := result0.Before
+//@   sets lastFilterOK := result3
+//@   ensures [C14:limit_defaults_to_100_and_caps_at_1000_for_preview_and_real_run_alike] result3 ==> local(req).Limit >= 0 && result0.Limit == ite(local(req).Limit == 0, 100, ite(local(req).Limit > 1000, 1000, local(req).Limit))
+//@   ensures [C14:filter_fields_are_the_request_fields] result3 ==> result0.Route == trim(local(req).Route) && result0.Target == trim(local(req).Target) && result0.PreviewOnly == local(req).PreviewOnly && result1 == trim(local(req).Application) && result2 == trim(local(req).EndpointName)
+//@   ensures [C14:a_named_state_is_one_the_operation_may_touch] result3 ==> (trim(local(req).State) == "" && result0.State == "") || (result0.State == lower(trim(local(req).State)) && result0.State in allowedStates)
+//@   ensures [C14:limit_in_range] result3 ==> result0.Limit >= 1 && result0.Limit <= 1000
+
+//@ func (*Server).resolveManagedEndpointAlignedScope
+//@   trusted
+//@   ensures !result5 ==> result2 >= 100
+//@ func (*Server).resolveManagedRoute
+//@   requires s != nil
+//@   modifies lastResolvedRoute, lastResolvedOK
+//@   sets lastResolvedRoute := result0
+//@   sets lastResolvedOK := result4
+//@   ensures [C14:without_a_selector_the_route_is_the_one_named] result4 && trim(application) == "" ==> result0 == trim(route)
+//@   ensures [C14:a_selector_never_overrides_a_named_route] result4 && trim(route) != "" ==> result0 == trim(route)
+//@   ensures [C14:half_a_selector_is_refused] (trim(application) == "") != (trim(endpointName) == "") ==> !result4
+//@   ensures [refusal_has_a_status] !result4 ==> result1 >= 100
+//@ func (*Server).filterMutationTouchesManagedRoute
+//@   trusted
+//@ func (*Server).writeScopedManagedFilterMutationError
+//@   trusted
+//@   modifies respStatus, maps(http.Header)
+//@ func writeManagedSelectorResolveError
+//@   trusted
+//@   modifies respStatus, maps(http.Header)
+//@ func validateManagedSelectorLabels
+//@   trusted
+//@ func parseOptionalRoutePath
+//@   trusted
+//@ func managedSelectorRequiredDetail
+//@   trusted
+
+//@ func parseManageIDs
+//@   requires r != nil
+//@   modifies dlqManageRequest.*, lastParsedIDs, lastParsedIDsOK
+//@   sets lastParsedIDs := result0
+//@   sets lastParsedIDsOK := result1
+//@   loop 1 invariant [seen_is_ids] seen != nil && rangeindex < len(req.IDs) && (forall k string :: k in seen <==> exists j int :: 0 <= j && j < len(ids) && ids[j] == k)
+//@   loop 1 invariant [clean_distinct] len(ids) <= rangeindex + 1 && (forall j int :: 0 <= j && j < len(ids) ==> ids[j] != "" && exists i int :: 0 <= i && i <= rangeindex && trim(req.IDs[i]) == ids[j]) && (forall j int, k int :: 0 <= j && j < k && k < len(ids) ==> ids[j] != ids[k])
+//@   loop 1 invariant [complete] forall i int :: 0 <= i && i <= rangeindex ==> trim(req.IDs[i]) != "" && trim(req.IDs[i]) in seen
+//@   ensures [C14:id_list_has_1_to_1000_ids] result1 ==> len(result0) >= 1 && len(result0) <= 1000 && len(local(req).IDs) <= 1000
+//@   ensures [C14:ids_are_trimmed_request_ids] result1 ==> forall j int :: 0 <= j && j < len(result0) ==> result0[j] != "" && exists i int :: 0 <= i && i < len(local(req).IDs) && trim(local(req).IDs[i]) == result0[j]
+//@   ensures [C14:ids_distinct] result1 ==> forall j int, k int :: 0 <= j && j < k && k < len(result0) ==> result0[j] != result0[k]
+//@   ensures [C14:every_named_id_is_kept] result1 ==> forall i int :: 0 <= i && i < len(local(req).IDs) ==> exists j int :: 0 <= j && j < len(result0) && result0[j] == trim(local(req).IDs[i])
+
+//@ func (*Server).scopedManagedMutationByIDs
+//@   trusted
+//@ func (*Server).writeScopedManagedIDMutationError
+//@   trusted
+//@   modifies respStatus, maps(http.Header)
+
+//@ func (*Server).handleDLQRequeue
+//@   requires s != nil && r != nil && r.Header != nil && w != nil
+//@   modifies *
+//@   preserves Server.*
+//@   calls queue.Store.RequeueDead requires [C14:the_store_gets_exactly_the_parsed_id_list] lastParsedIDsOK && callee_req.IDs == lastParsedIDs && filterMutations == old(filterMutations)
+//@   ensures [C14:at_most_one_store_mutation_per_request] filterMutations <= old(filterMutations) + 1
+
+//@ func (*Server).handleDLQDelete
+//@   requires s != nil && r != nil && r.Header != nil && w != nil
+//@   modifies *
+//@   preserves Server.*
+//@   calls queue.Store.DeleteDead requires [C14:the_store_gets_exactly_the_parsed_id_list] lastParsedIDsOK && callee_req.IDs == lastParsedIDs && filterMutations == old(filterMutations)
+//@   ensures [C14:at_most_one_store_mutation_per_request] filterMutations <= old(filterMutations) + 1
+
+//@ func (*Server).handleMessagesCancel
+//@   requires s != nil && r != nil && r.Header != nil && w != nil
+//@   modifies *
+//@   preserves Server.*
+//@   calls queue.Store.CancelMessages requires [C14:the_store_gets_exactly_the_parsed_id_list] lastParsedIDsOK && callee_req.IDs == lastParsedIDs && filterMutations == old(filterMutations)
+//@   ensures [C14:at_most_one_store_mutation_per_request] filterMutations <= old(filterMutations) + 1
+
+//@ func (*Server).handleMessagesRequeue
+//@   requires s != nil && r != nil && r.Header != nil && w != nil
+//@   modifies *
+//@   preserves Server.*
+//@   calls queue.Store.RequeueMessages requires [C14:the_store_gets_exactly_the_parsed_id_list] lastParsedIDsOK && callee_req.IDs == lastParsedIDs && filterMutations == old(filterMutations)
+//@   ensures [C14:at_most_one_store_mutation_per_request] filterMutations <= old(filterMutations) + 1
+
+//@ func (*Server).handleMessagesResume
+//@   requires s != nil && r != nil && r.Header != nil && w != nil
+//@   modifies *
+//@   preserves Server.*
+//@   calls queue.Store.ResumeMessages requires [C14:the_store_gets_exactly_the_parsed_id_list] lastParsedIDsOK && callee_req.IDs == lastParsedIDs && filterMutations == old(filterMutations)
+//@   ensures [C14:at_most_one_store_mutation_per_request] filterMutations <= old(filterMutations) + 1
+
+//@ func (*Server).resolveManagedPathRoute
+//@   requires s != nil
+//@   modifies lastResolvedRoute, lastResolvedOK
+//@   sets lastResolvedRoute := result0
+//@   sets lastResolvedOK := result4
+//@   ensures [refusal_has_a_status] !result4 ==> result1 >= 100
+//@ func writeManagementPathResolveError
+//@   trusted
+//@   modifies respStatus, maps(http.Header)
+//@ func hasScopedManagedSelectorHints
+//@   ensures [C14:hints] result == (trim(routeHint) != "" || trim(applicationHint) != "" || trim(endpointHint) != "")
+
+//@ func (*Server).handleMessagesCancelByFilter
+//@   requires s != nil && r != nil && r.Header != nil && w != nil
+//@   modifies *
+//@   preserves Server.*
+//@   calls parseMessageManageFilter requires [C14:cancel_by_filter_may_name_only_queued_leased_dead] forall st queue.State :: st in arg1 ==> st == queue.StateQueued || st == queue.StateLeased || st == queue.StateDead
+//@   calls queue.Store.CancelMessagesByFilter requires [C14:the_store_gets_exactly_the_parsed_filter_on_the_resolved_route] lastFilterOK && callee_req.Limit == lastFilterLimit && callee_req.State == lastFilterState && callee_req.Target == lastFilterTarget && callee_req.PreviewOnly == lastFilterPreview && callee_req.Before == lastFilterBefore && lastResolvedOK && callee_req.Route == lastResolvedRoute && filterMutations == old(filterMutations)
+//@   ensures [C14:at_most_one_store_mutation_per_request] filterMutations <= old(filterMutations) + 1
+
+//@ func (*Server).handleApplicationEndpointCancelByFilter
+//@   requires s != nil && r != nil && r.Header != nil && w != nil
+//@   modifies *
+//@   preserves Server.*
+//@   calls parseMessageManageFilter requires [C14:cancel_by_filter_may_name_only_queued_leased_dead] forall st queue.State :: st in arg1 ==> st == queue.StateQueued || st == queue.StateLeased || st == queue.StateDead
+//@   calls queue.Store.CancelMessagesByFilter requires [C14:the_store_gets_exactly_the_parsed_filter_on_the_resolved_route] lastFilterOK && callee_req.Limit == lastFilterLimit && callee_req.State == lastFilterState && callee_req.Target == lastFilterTarget && callee_req.PreviewOnly == lastFilterPreview && callee_req.Before == lastFilterBefore && lastResolvedOK && callee_req.Route == lastResolvedRoute && filterMutations == old(filterMutations)
+//@   ensures [C14:at_most_one_store_mutation_per_request] filterMutations <= old(filterMutations) + 1
+
+//@ func (*Server).handleMessagesRequeueByFilter
+//@   requires s != nil && r != nil && r.Header != nil && w != nil
+//@   modifies *
+//@   preserves Server.*
+//@   calls parseMessageManageFilter requires [C14:requeue_by_filter_may_name_only_dead_canceled] forall st queue.State :: st in arg1 ==> st == queue.StateDead || st == queue.StateCanceled
+//@   calls queue.Store.RequeueMessagesByFilter requires [C14:the_store_gets_exactly_the_parsed_filter_on_the_resolved_route] lastFilterOK && callee_req.Limit == lastFilterLimit && callee_req.State == lastFilterState && callee_req.Target == lastFilterTarget && callee_req.PreviewOnly == lastFilterPreview && callee_req.Before == lastFilterBefore && lastResolvedOK && callee_req.Route == lastResolvedRoute && filterMutations == old(filterMutations)
+//@   ensures [C14:at_most_one_store_mutation_per_request] filterMutations <= old(filterMutations) + 1
+
+//@ func (*Server).handleApplicationEndpointRequeueByFilter
+//@   requires s != nil && r != nil && r.Header != nil && w != nil
+//@   modifies *
+//@   preserves Server.*
+//@   calls parseMessageManageFilter requires [C14:requeue_by_filter_may_name_only_dead_canceled] forall st queue.State :: st in arg1 ==> st == queue.StateDead || st == queue.StateCanceled
+//@   calls queue.Store.RequeueMessagesByFilter requires [C14:the_store_gets_exactly_the_parsed_filter_on_the_resolved_route] lastFilterOK && callee_req.Limit == lastFilterLimit && callee_req.State == lastFilterState && callee_req.Target == lastFilterTarget && callee_req.PreviewOnly == lastFilterPreview && callee_req.Before == lastFilterBefore && lastResolvedOK && callee_req.Route == lastResolvedRoute && filterMutations == old(filterMutations)
+//@   ensures [C14:at_most_one_store_mutation_per_request] filterMutations <= old(filterMutations) + 1
+
+//@ func (*Server).handleMessagesResumeByFilter
+//@   requires s != nil && r != nil && r.Header != nil && w != nil
+//@   modifies *
+//@   preserves Server.*
+//@   calls parseMessageManageFilter requires [C14:resume_by_filter_may_name_only_canceled] forall st queue.State :: st in arg1 ==> st == queue.StateCanceled
+//@   calls queue.Store.ResumeMessagesByFilter requires [C14:the_store_gets_exactly_the_parsed_filter_on_the_resolved_route] lastFilterOK && callee_req.Limit == lastFilterLimit && callee_req.State == lastFilterState && callee_req.Target == lastFilterTarget && callee_req.PreviewOnly == lastFilterPreview && callee_req.Before == lastFilterBefore && lastResolvedOK && callee_req.Route == lastResolvedRoute && filterMutations == old(filterMutations)
+//@   ensures [C14:at_most_one_store_mutation_per_request] filterMutations <= old(filterMutations) + 1
+
+//@ func (*Server).handleApplicationEndpointResumeByFilter
+//@   requires s != nil && r != nil && r.Header != nil && w != nil
+//@   modifies *
+//@   preserves Server.*
+//@   calls parseMessageManageFilter requires [C14:resume_by_filter_may_name_only_canceled] forall st queue.State :: st in arg1 ==> st == queue.StateCanceled
+//@   calls queue.Store.ResumeMessagesByFilter requires [C14:the_store_gets_exactly_the_parsed_filter_on_the_resolved_route] lastFilterOK && callee_req.Limit == lastFilterLimit && callee_req.State == lastFilterState && callee_req.Target == lastFilterTarget && callee_req.PreviewOnly == lastFilterPreview && callee_req.Before == lastFilterBefore && lastResolvedOK && callee_req.Route == lastResolvedRoute && filterMutations == old(filterMutations)
+//@   ensures [C14:at_most_one_store_mutation_per_request] filterMutations <= old(filterMutations) + 1
+
 //@ func parsePublishItemsWithSelectorRequirement
 //@   requires r != nil
 //@   modifies messagesPublishRequest.*
